@@ -15,6 +15,7 @@ RULES = {
     "R-07.2": "every field stored by an immutable class's __init__ has an immutable kind (validator result, tuple/float/int/str/bytes, enum make, constify/Dict, constant, Name) – never a bare unvalidated parameter",
     "R-07.3": "Rdata.__eq__ and __hash__ derive from the same to_digestable image; ordering dunders follow the operator table over _cmp; _cmp is a mirrored three-way comparison of the digestable forms",
     "R-07.4": "Set methods that mutate self.items while iterating the other operand are guarded by `self is other` or iterate a copy",
+    "R-07.7": "items enter a Set's `items` only through Set.add (the hook Rdataset/RRset override to refuse foreign records, replace singletons and minimise the TTL) or by copying an already-valid set in _clone/__init__; every other growing operation reaches them via self.add / self.union_update",
     "R-07.5": "Rdataset.add: no refusal (raise) is reachable after the first write to self",
     "R-07.6": "singleton replacement and TTL minimisation are wired: clear() under is_singleton before the insert; every merging path passes update_ttl",
 }
@@ -268,6 +269,41 @@ def run(model, rep, tier):
     se = model.func("dns.set.Set.__eq__")
     rep.check("return self.items == other.items" in src(se.node), "R-07.4", se.qualname, where(se, se.node), "set equality is dict equality (order-insensitive)", "Set.__eq__ changed", stmt="eq-shape")
 
+    # ---------------------------------------------------------------- R-07.7
+    INSERT_OK = {"dns.set.Set.add": "the overridable insertion hook itself", "dns.set.Set._clone": "copies the items of an already-valid set into a fresh object of the same class",
+                 "dns.set.Set.__init__": "creates the empty dict", "dns.rdataset.ImmutableRdataset.__init__": "freezes the items of an already-valid rdataset"}
+    n_ins = 0
+    for modname in ("dns.set", "dns.rdataset", "dns.rrset"):
+        for f in [g for g in model.all_functions() if g.module.name == modname]:
+            for x in ast.walk(f.node):
+                grow = None
+                if isinstance(x, ast.Subscript) and isinstance(x.ctx, ast.Store) and isinstance(x.value, ast.Attribute) and x.value.attr == "items":
+                    grow = x
+                elif isinstance(x, ast.Call) and isinstance(x.func, ast.Attribute) and x.func.attr in ("update", "setdefault", "__setitem__") and isinstance(x.func.value, ast.Attribute) and x.func.value.attr == "items":
+                    grow = x
+                elif isinstance(x, ast.Attribute) and isinstance(x.ctx, ast.Store) and x.attr == "items":
+                    grow = x
+                elif isinstance(x, ast.AugAssign) and isinstance(x.target, ast.Attribute) and x.target.attr == "items":
+                    grow = x
+                if grow is None:
+                    continue
+                n_ins += 1
+                if f.qualname in INSERT_OK:
+                    rep.ok("R-07.7", f.qualname, where(f, grow), f"`{src(grow)[:50]}`: {INSERT_OK[f.qualname]}", stmt="insert " + src(grow)[:40])
+                else:
+                    rep.bad("R-07.7", f.qualname, where(f, grow), f"`{src(grow)[:60]}` puts items into the set without going through self.add(): on an Rdataset/RRset the class/type/covers refusal, "
+                            "singleton replacement and TTL minimisation are bypassed", stmt="insert " + src(grow)[:40])
+    rep.floor("R-07.7", n_ins, 5)
+    # the growing operations of Set must call the overridable hooks
+    for mname, hooks in (("union_update", ("self.add",)), ("symmetric_difference_update", ("self.union_update", "self.add")), ("update", ("self.add", "self.union_update")), ("__init__", ("self.add",))):
+        f = st.methods.get(mname)
+        if f is None:
+            rep.blind("R-07.7", f"dns.set.Set.{mname}", st.file, "method vanished", stmt="via-hook")
+            continue
+        called = {src(c.func) for c in ast.walk(f.node) if isinstance(c, ast.Call)}
+        rep.check(any(h in called for h in hooks), "R-07.7", f.qualname, where(f, f.node), f"grows the set through {sorted(called & set(hooks))}",
+                  f"Set.{mname} no longer inserts through {' / '.join(hooks)}", stmt="via-hook")
+
     # ---------------------------------------------------------------- R-07.5 / R-07.6
     rs = model.cls("dns.rdataset.Rdataset")
     ws = WriteSets(model)
@@ -334,6 +370,12 @@ def run(model, rep, tier):
 
 
 WITNESSES = [
+    {"id": "c07-symdiff-direct-insert", "rule": "R-07.7", "file": "dns/set.py", "expect": "fires",
+     "old": "            overlap = self.intersection(other)\n            self.union_update(other)\n            self.difference_update(overlap)",
+     "new": "            for item in other.items:\n                if item in self.items:\n                    del self.items[item]\n                else:\n                    self.items[item] = None"},
+    {"id": "c07-twin-symdiff-via-add", "rule": "R-07.7", "file": "dns/set.py", "expect": "silent",
+     "old": "            overlap = self.intersection(other)\n            self.union_update(other)\n            self.difference_update(overlap)",
+     "new": "            overlap = self.intersection(other)\n            for item in other.items:\n                self.add(item)\n            self.difference_update(overlap)"},
     {"id": "c07-generic-unvalidated", "rule": "R-07.2", "file": "dns/rdata.py", "expect": "fires",
      "old": "        self.data = self._as_bytes(data)", "new": "        self.data = data"},
     {"id": "c07-add-ttl-before-refusal", "rule": "R-07.5", "file": "dns/rdataset.py", "expect": "fires",
